@@ -181,7 +181,7 @@ func TestWorker(t *testing.T) {
 		genT := simrt.NewRandomTape(simrt.Mix(base, uint64(2*idx)))
 		schedT := simrt.NewRandomTape(simrt.Mix(base, uint64(2*idx+1)))
 		fmt.Fprintf(os.Stderr, "VERIF-RUN %d begin\n", idx)
-		o := oneRun(t, prop, sc, genT, schedT, false)
+		o := oneRun(t, prop, sc, genT, schedT, os.Getenv("VERIF_VERBOSE") != "")
 		fmt.Fprintf(os.Stderr, "VERIF-RUN %d end\n", idx)
 		o.Idx = idx
 		if k >= samples && len(o.Viol) == 0 {
